@@ -178,10 +178,19 @@ Theorem C03_bound_order : forall b1 i1 b2 i2,
 Proof. exact hz_le_spec. Qed.
 Print Assumptions C03_bound_order.
 
-(* the state right after initialize is quiescent-and-live *)
-Theorem C03_after_initialize_live : forall p s r, running s = false -> Live (fst (do_init p s r)).
+(* the state right after an initialize that returned is quiescent-and-live; an initialize aborted
+   by a raising construct_model leaves the simulator not initialised (no run command is accepted) *)
+Theorem C03_after_initialize_live : forall p s r, snd (do_init p s r) = ResOk -> Live (fst (do_init p s r)).
 Proof. exact do_init_live. Qed.
 Print Assumptions C03_after_initialize_live.
+
+Theorem C03_after_aborted_initialize_nothing_runs : forall p fuel s r cs,
+  snd (do_init p s r) = ResRaised -> forallb is_runcmd cs = true ->
+  fst (run_cmds fuel p (fst (do_init p s r)) cs) = fst (do_init p s r).
+Proof.
+  intros p fuel s r cs H Hc. apply notinit_run_cmds; auto. apply (proj1 (do_init_raised p s r H)).
+Qed.
+Print Assumptions C03_after_aborted_initialize_nothing_runs.
 
 (* the guard at the end time: refuted for the pinned code ("refuse when clock >=
    end": a pause exactly at the end time with events at that time still pending
